@@ -155,7 +155,7 @@ class Scenario:
             self.frame(i, fr)
         self.meta["clock_gaps"] = self.meta.get("clock_gaps", 0) + gaps
         if shadow:
-            self.meta["shadow"] = shadow[0]
+            self.meta["shadow_iface"] = shadow[0]
         return self
 
     def text(self):
